@@ -8,8 +8,9 @@ from props import base
 PROP = "C02"
 PROPS_V = "theories/Props/C02.v"
 THEOREMS = ["C02_collect_zones_sound_notfree", "C02_collect_zones_not_refuted", "C02_exact_refuted",
+            "C02_known_classes_witnessed", "C02_repaired_findings_exact", "C02_mixed_provenance_gone",
             "C02_exact_outside_known", "C02_layout_independent", "C02_outside_known_example",
-            "C02_layout_independent_example", "C02_known_classes_witnessed"]
+            "C02_layout_independent_example"]
 RULE = ("engine level: generated schemas over int/u64/float/string/bool/enum/datetime/optional fields, generated event "
         "multisets (3 batches, contexts c1..c3) and generated predicates (all six operators, IN, AND/OR/NOT nesting, negative "
         "numbers, decimal literals, unknown enum variants, absent values, numeric-looking strings, FOR); every query is asked "
@@ -21,7 +22,7 @@ ASSUMPTIONS = [
     "what a pruning structure answers when it is consulted is an input of the model (the real pruner's answer on the real segment directory); the theorems assume only that it is a superset of the zones holding a satisfying row (C08)",
     "one event type per history; SINCE and the core fields (timestamp, context_id, event_type) inside WHERE are not modelled",
     "float cells are spelled with a decimal point in the payload and have at most three fraction digits (Rust Display / serde_json text of a double is supplied with the case, not modelled)",
-    "datetime cells are non-negative epoch seconds; a flow whose row filter panics is modelled as delivering nothing",
+    "datetime cells are non-negative epoch seconds (negative literals are generated); a flow whose row filter panics is modelled as delivering nothing",
     "the layout of a segment (which rows are in which zone) is read back from the segment directory with the real column reader",
 ]
 TRUSTED = [
@@ -33,7 +34,7 @@ TRUSTED = [
 ]
 CLAIMED = True
 MANIFEST = {
-    "level_text": "Theorems over Model/{Value,Expr,Sem,Cond,Prune,Layout,Known}.v (all schemas, layouts, zone sizes, event multisets): zone collection over a NOT-free filter tree returns a superset of the zones holding a satisfying row whenever every consulted leaf does (induction on the tree); the zone complement used for NOT does not (two-row zone); exactness of QUERY is refuted with one closed witness per mechanism and proved for every query outside the known classes (NOT, decimal literals, float and bool fields, != on non-enum fields, != an unknown enum variant, negative thresholds on u64, u64 above i64::MAX, numeric-looking strings, string ordering, null spellings, negative instants) over sound leaves, for every layout; hence layout independence there. The models are run against the real engine in five layouts per query and against the real condition evaluator row by row; the pruning structures' answers are taken from the real pruners.",
+    "level_text": "Theorems over Model/{Value,Expr,Sem,Cond,Prune,Layout,Known}.v (all schemas, layouts, zone sizes, event multisets): zone collection over a NOT-free filter tree returns a superset of the zones holding a satisfying row whenever every consulted leaf does (induction on the tree); the zone complement used for NOT does not (two-row zone); exactness of QUERY is refuted with one closed witness per remaining mechanism and proved for every query outside the known classes (NOT, decimal literals, IN on float fields, integer thresholds of 2^53 or more on float fields, negative thresholds on u64, u64 above i64::MAX, numeric-looking strings, string ordering, null spellings, != on optional string/enum/bool fields) over sound leaves, for every layout; hence layout independence there. After the fix round float and bool fields, != on every field kind, unknown enum variants, negative instants and mixed candidate-zone provenance are inside the exact fragment (closed regression instances C02_repaired_findings_exact). The models are run against the real engine in five layouts per query and against the real condition evaluator row by row; the pruning structures' answers are taken from the real pruners.",
     "design_ref": "DESIGN.md §6 C02",
     "level_note": "Trusted: Coq kernel; ExtrOcamlBasic extraction + ocaml/p_query.ml; the engine harness and the cond probes; CPython (oracle). Assumed, not proved here: leaf soundness of the pruning structures (C08). Not modelled: SINCE, core fields in WHERE, several event types, reads during a flush (C03), float printing/parsing."
 }
@@ -301,7 +302,7 @@ def gen_pool(rng, f):
     if k == "u":
         return [rng.choice(U64S) for _ in range(rng.range(2, 4))] + ([rng.choice([2 ** 63, 2 ** 64 - 1])] if rng.chance(1, 8) else [])
     if k == "f":
-        return [rng.choice(FLOATS) for _ in range(rng.range(2, 4))]
+        return [rng.choice(FLOATS) for _ in range(rng.range(2, 4))] + ([9007199254740992.0] if rng.chance(1, 10) else [])
     if k == "s":
         return [rng.choice(STRS) for _ in range(rng.range(2, 3))] + ([rng.choice(ODD_STRS)] if rng.chance(1, 3) else [])
     if k == "b":
@@ -345,6 +346,8 @@ def gen_lit(rng, f, pool):
             return ("f", basev + rng.choice([0.25, -0.25, 0.2]))
         if r < 85:
             return ("i", int(basev) + rng.choice([0, 0, 1, -1]))
+        if r < 88:
+            return ("i", rng.choice([2 ** 53 + 1, -(2 ** 53) - 1, 2 ** 53, I64MAX]))
         return ("i", rng.choice([-1, 0, 2, 3]))
     if k == "s":
         if r < 55:
@@ -543,6 +546,14 @@ def run_history(hist, queries):
             segs = sorted(d for d in os.listdir(base_dir) if d.isdigit()) if os.path.isdir(base_dir) else []
             lines = []
             if segs:
+                # a numeric directory without zone metadata of the type holds no rows of it (e.g. the
+                # emptied directory of a segment that compaction is about to reclaim)
+                zl0 = fn_lines([f"cond_zones {hx(base_dir)} {uid} {','.join(segs)}"], eng.cfg_path)[0]
+                empty = [p.split(":", 1)[0] for p in zl0.split("|") if p.endswith(":NOZONES")]
+                if empty:
+                    st["empty_dirs"] = empty
+                segs = [g for g in segs if g not in empty]
+            if segs:
                 lines.append(f"cond_zones {hx(base_dir)} {uid} {','.join(segs)}")
             leafset = []
             for q in queries:
@@ -579,23 +590,8 @@ def run_history(hist, queries):
         store(nab, n)
         observe("mixed")
         flush()
-        # compaction panics (zone_cursor.rs next_row, index out of bounds) on an input zone in which an
-        # optional field is absent from every row — not a query defect; such a history keeps its
-        # flushed layout for the fourth observation
-        segs = sorted(d for d in os.listdir(base_dir) if d.isdigit())
-        zl = fn_lines([f"cond_zones {hx(base_dir)} {uid} {','.join(segs)}"], eng.cfg_path)[0]
-        hollow = False
-        for part in zl.split("|"):
-            for z in part.split(":", 1)[1].split(";"):
-                rows = [int(x) for x in z.split("=", 1)[1].split(".") if x.isdigit()]
-                for j, f in enumerate(hist["schema"]):
-                    if f["opt"] and rows and all(hist["events"][i][1][j][0] == "a" for i in rows):
-                        hollow = True
-        if hollow:
-            res["compact"] = "skipped"
-        else:
-            res["compact"] = eng.cmd("!compact 0")
-            eng.cmd("!sleep 30")
+        res["compact"] = eng.cmd("!compact 0")
+        eng.cmd("!sleep 30")
         observe("compact")
         eng.restart(clean=True)
         observe("restart")
@@ -744,6 +740,13 @@ def classify(c, impl, model=None):
                 if " M1" in str(m):
                     return "MixedZoneProvenance"
                 if " U1" in str(m):
+                    # a consulted structure's answer is not a superset (C08).  The one such defect
+                    # that is still open: ZoneSuRF keeps integral doubles in the i64 lane and the
+                    # others in the f64 lane, so a range probe on a float field misses zones.
+                    byname = {f["name"]: f for f in hist["schema"]}
+                    if any(lf[1] in ("lt", "le", "gt", "ge") and byname.get(lf[0], {}).get("kind") == "f"
+                           for lf in leaves_of(c["q"]["where"])):
+                        return "SurfFloatLanes"
                     return "UnsoundLeaf"
                 return None
     return None if cls in (None, "IllTyped") else cls
